@@ -617,6 +617,10 @@ def read_quotient(p):
     return r.body(outside)
 
 
+# the statement that puts the children of a nested Sum / Product back into the queue
+# -> `spliceFront` of `C03Flatten`: in place (front of the queue) or at the end of the queue
+FLATTEN_SPLICES = {"queue[0:0] = item.children": True, "queue += item.children": False}
+
 FLATTEN_TEMPLATE = """\
 queue = list({terms})
 done = []
@@ -624,7 +628,7 @@ while queue:
     item = queue.pop(0)
 {tests}
     if isinstance(item, {cls}):
-        queue += item.children
+        {splice}
     else:
         done.append(item)
 if len(done) == 0:
@@ -670,12 +674,19 @@ def read_flatten(p, name):
     cls = r.klass(last.test.args[1])
     if cls not in ("Sum", "Product"):
         raise ExtractError(f"{what}: flattens something else than Sum / Product")
+    # where the children of a nested node go: the statement itself is read
+    splice = ast.unparse(last.body[0]) if len(last.body) == 1 else None
+    if splice not in FLATTEN_SPLICES:
+        raise ExtractError(f"{what}: unreadable re-queueing of the children: "
+                           f"`{(splice or ast.unparse(last))[:80]}`")
+    splice_front = FLATTEN_SPLICES[splice]
     ret0 = st[3].body[0] if isinstance(st[3], ast.If) and st[3].body else None
     if not (isinstance(ret0, ast.Return) and isinstance(ret0.value, ast.Constant)
             and type(ret0.value.value) is int):
         raise ExtractError(f"{what}: unreadable result for an empty list")
     empty = ret0.value.value
-    want = FLATTEN_TEMPLATE.format(terms=terms, tests="\n".join(texts), cls=cls, empty=empty)
+    want = FLATTEN_TEMPLATE.format(terms=terms, tests="\n".join(texts), cls=cls, empty=empty,
+                                   splice=splice)
     got = "\n".join(ast.unparse(s) for s in st)
     if got != want:
         raise ExtractError(f"{what}: body differs from the known loop shape")
@@ -683,7 +694,8 @@ def read_flatten(p, name):
                    ("isinstance", isinstance)):
         if r.glob(g, None) is not obj:
             raise ExtractError(f"{what}: `{g}` is shadowed")
-    return dict(zeroReturns=zero_returns, skipsOne=skips_one, cls=NARY_CLASSES[cls], empty=empty)
+    return dict(zeroReturns=zero_returns, skipsOne=skips_one, cls=NARY_CLASSES[cls], empty=empty,
+                spliceFront=splice_front)
 
 # }}}
 
@@ -731,7 +743,8 @@ def ident(m):
 def lean_flat(f):
     e = f["empty"]
     return (f"{{ zeroReturns := {lb(f['zeroReturns'])}, skipsOne := {lb(f['skipsOne'])}, "
-            f"cls := .{f['cls']}, empty := {e if e >= 0 else f'({e})'} }}")
+            f"cls := .{f['cls']}, spliceFront := {lb(f['spliceFront'])}, "
+            f"empty := {e if e >= 0 else f'({e})'} }}")
 
 
 def render(t):
